@@ -141,6 +141,8 @@ def run_property(modname: str, tier: str, seed: int, replay: str | None = None) 
         cases = mod.gen_cases(tier, seed)
     indexed = list(enumerate(cases))
     nworkers = getattr(mod, "WORKERS", {}).get(tier, 16)
+    if os.environ.get("VERIF_MAX_WORKERS"):
+        nworkers = min(nworkers, int(os.environ["VERIF_MAX_WORKERS"]))
     nworkers = max(1, min(nworkers, len(indexed)))
     budget = getattr(mod, "WORKER_TIMEOUT", {}).get(tier, 900 if tier == "quick" else 7200)
 
